@@ -870,6 +870,10 @@ def worker_main():
         obs['shape'] = shapes
         if want_str:
             obs['strs'] = ['-' if o is None else [safe(lambda: str(o.root)), safe(lambda: str(o))] for o in pool]
+        # what get_list() hands out is the caller's too: editing it must not reach the OBDD (seen at the next observation)
+        for o in pool:
+            if o is not None:
+                safe(lambda: o.ordering.get_list().reverse())
         del up, nonterm, trip
         return obs
 
@@ -881,7 +885,13 @@ def worker_main():
                 return 'HARNESS:empty slot %d' % op[s]
         try:
             if k == 'parse':
-                pool[op[1]] = OBDD(op[3], list(op[2]))
+                # the ordering list belongs to the caller, who goes on using it (an OBDD that kept a reference to it,
+                # instead of its own copy, would change its printed header / ordering with it)
+                lst = list(op[2])
+                pool[op[1]] = OBDD(op[3], lst)
+                lst.reverse()
+                lst.append('zz_callers_own')
+                del lst[:1]
             elif k == 'lambda':
                 pool[op[1]] = OBDD(op[2])
             elif k == 'and':
